@@ -384,3 +384,67 @@ func VH_C09_UnspecifiedSpliceTime() {
 	vrt.Assert(got[14+6] == 0x7F, "unspecified splice_time is time_specified_flag 0 followed by seven reserved ones")
 	vrt.Reach("end")
 }
+
+// every setter is reflected by the NEXT encoding: encode, change values through setters (same
+// shape, so the section keeps its length), encode again and compare with the reference for the
+// new values; the same for a signal obtained by decoding.
+func VH_C09_SetThenReencode() {
+	cs := c09cmdShapes()
+	c := cs[vrt.Choose("command", 0, len(cs)-1)]
+	decoded := vrt.Choose("decoded", 0, 1) == 1
+	ds := []c08dshape{{program: true, hasDur: true, upidLen: 1}}
+	m := c08symSig(0, c, ds)
+	m.version, m.alg, m.cwIndex = 0, 0, 0
+	var s SCTE35
+	if decoded {
+		if !(c.kind == 0 || c.kind == 6 || c.cancel || c.program || true) {
+			vrt.Assume(false)
+		}
+		in := c08section(c09canon, m, []byte{})
+		var err error
+		s, err = NewSCTE35(in)
+		vrt.Assert(err == nil && s != nil, "a canonical section decodes")
+		if err != nil || s == nil {
+			vrt.Reach("end")
+			return
+		}
+	} else {
+		s = CreateSCTE35()
+		s.SetTier(m.tier)
+		s.SetCommandInfo(c09apiCmd(m.cmd, true))
+		var descs []SegmentationDescriptor
+		for _, w := range m.descs {
+			descs = append(descs, c09apiDesc(w))
+		}
+		s.SetDescriptors(descs)
+		s.SetAdjustPTS(gots.PTS((m.cmd.pts + m.adj) & (1<<33 - 1)))
+	}
+	vrt.StubCRC(true)
+	first := s.UpdateData()
+	vrt.StubCRC(false)
+	want1 := c08section(c09canon, m, []byte{})[1:]
+	c08sameBytes(first, want1, "the first encoding is canonical")
+	// change values through the setter API
+	m2 := m
+	m2.tier = vrt.Uint16("tier2") & 0xFFF
+	target2 := c08u33("adjusted_pts2")
+	s.SetTier(m2.tier)
+	s.SetAdjustPTS(gots.PTS(target2))
+	m2.adj = (target2 - m.cmd.pts) & (1<<33 - 1)
+	d2 := m.descs[0]
+	d2.eventID = vrt.Uint32("event2")
+	d2.segNum = vrt.Byte("segnum2")
+	d2.duration = vrt.Uint64("duration2") & (1<<40 - 1)
+	s.Descriptors()[0].SetEventID(d2.eventID)
+	s.Descriptors()[0].SetSegmentNumber(d2.segNum)
+	s.Descriptors()[0].SetDuration(gots.PTS(d2.duration))
+	m2.descs = []c08desc{d2}
+	keepData := append([]byte{}, s.Data()...)
+	vrt.StubCRC(true)
+	second := s.UpdateData()
+	vrt.StubCRC(false)
+	c08sameBytes(keepData, first, "the raw-data accessor changes only when the signal is re-encoded")
+	want2 := c08section(c09canon, m2, []byte{})[1:]
+	c08sameBytes(second, want2, "every setter is reflected by the next encoding")
+	vrt.Reach("end")
+}
